@@ -9,13 +9,14 @@ V=$(/verif/bin/seedverify.sh "$SRC" 2>&1); rv=$?
 echo "$V" | tail -4
 if [ $rv -ne 0 ]; then echo "== $ID$X: not confirmed, not kept"; exit 1; fi
 mkdir -p "$DST"; cp "$SRC"/* "$DST"/
-OUT=$(MUTANT_LINES=8 /verif/bin/mutant.sh "$DST/patch.diff" "$PROPS" "$TIER" 2>&1); rm=$?
-echo "$OUT"
-python3 - "$DST" "$rm" "$PROPS" "$TIER" <<PY
+TF=$(mktemp /tmp/seedproc-XXXXXX)
+VERIF_MAX_GROUPS=1 VERIF_MIN_BUDGET=8 MUTANT_LINES=8 /verif/bin/mutant.sh "$DST/patch.diff" "$PROPS" "$TIER" > "$TF" 2>&1; rm=$?
+cat "$TF"
+python3 - "$DST" "$rm" "$PROPS" "$TIER" "$TF" <<'PY'
 import json,sys,re
 dst,rm,props,tier=sys.argv[1],int(sys.argv[2]),sys.argv[3],sys.argv[4]
 m=json.load(open(dst+'/meta.json'))
-out=open('/dev/stdin').read() if False else """$OUT"""
+out=open(sys.argv[5],errors='replace').read()
 caught=[]
 for blk in re.findall(r'== (C\d+) exit=(\d+): (\d+) violation groups', out):
     if blk[1]=='1': caught.append(blk[0])
@@ -25,3 +26,4 @@ m['verif']={'confirmed':'bin/seedverify.sh: patch applies to /repo HEAD, go buil
 json.dump(m,open(dst+'/meta.json','w'),indent=1)
 print("== %s: caught_by=%s" % (dst, caught))
 PY
+rm -f "$TF"
